@@ -49,6 +49,12 @@ def check(run):
     for sv in range(nsrv):
         for kd in ("own0", "other", "own0-prefixed", "empty", "short"):
             calls.append({"srv": sv, "kind": kd, "proxy": True})
+    # the pinned server answers with a redirect to another https server: that connection is a connection like any other - pinned, refused unless the key matches
+    redirs = []
+    for sv in range(min(nsrv, 6)):
+        for tgt in ((sv + 1) % nsrv, (sv + 3) % nsrv):
+            calls.append({"srv": sv, "kind": "own0", "redirect": tgt}); redirs.append(len(calls) - 1)
+        calls.append({"srv": sv, "kind": "own0", "redirect": sv}); redirs.append(len(calls) - 1)      # control: redirected to itself (same key)
     # overlapping calls: a second call runs to completion while the first is between configuring its client and connecting
     for sv in range(nsrv):
         for outer, inner in (("other", "own0"), ("empty", "own0"), ("own0", "other"), ("own0", "empty"), ("other", "other")):
@@ -59,7 +65,7 @@ def check(run):
         calls += [{"srv": g, "kind": "own0"}, {"srv": imp, "kind": "pin-of", "of": g}, {"srv": imp, "kind": "own0"}, {"srv": g, "kind": "pin-of", "of": imp},
                   {"srv": g, "kind": "own0-prefixed"}, {"srv": imp, "kind": "pin-of", "of": g}]
     inputs = [dict({"i": k, "srv": c["srv"], "kind": c["kind"]}, **dict(({"nested": dict(c["nested"], i=100000 + k)} if "nested" in c else {}), **({"of": c["of"]} if "of" in c else {}),
-                          **({"scheme": c["scheme"]} if "scheme" in c else {}), **({"proxy": True} if c.get("proxy") else {}))) for k, c in enumerate(calls)]
+                          **({"scheme": c["scheme"]} if "scheme" in c else {}), **({"proxy": True} if c.get("proxy") else {}), **({"redirect": c["redirect"]} if "redirect" in c else {}))) for k, c in enumerate(calls)]
     res, err = vlib.run_drv(drv, "pin", [header] + inputs, args=[d], env=env, timeout=120)
     if err or not res or len(res) != len(inputs) + 1:
         run.oblige("pin driver ran all calls", False, "%s (%d results)" % (err, len(res or [])))
@@ -67,6 +73,14 @@ def check(run):
     spkis = res[0]["spkis"]
     run.oblige("process-wide HTTP defaults untouched at start", res[0].get("global_before", "") == "", res[0].get("global_before", ""))
     rs = res[1:]
+    rbad = [{"called": inputs[k]["srv"], "fingerprint": "the called server's own pin", "redirected_to_server": inputs[k]["redirect"],
+             "the_other_server_received_a_request": True} for k in redirs
+            if rs[k].get("redir_hit") and inputs[k]["redirect"] != inputs[k]["srv"] and spkis[inputs[k]["redirect"]][0] != spkis[inputs[k]["srv"]][0]]
+    for b in rbad[:1]:
+        run.violation("redirect-unpinned", "a call pinned to one server's key followed that server's redirect to an https server with ANOTHER key and sent it a request",
+                      {"stream": "pin", "input": b, "detail": rbad[:5]})
+    run.oblige("redirects: %d pinned calls whose server answers 302 to another https server (other key) or to itself - no server with another key receives "
+               "a request" % len(redirs), not rbad and sum(1 for k in redirs if inputs[k]["redirect"] == inputs[k]["srv"] and rs[k].get("hit")) > 0, json.dumps(rbad[:3]))
     nprox = sum(1 for i in inputs if i.get("proxy"))
     run.oblige("calls naming the C2 c2.example really went through the forwarding proxy (%d CONNECTs for %d such calls which got as far as connecting)" % (
                max([r.get("proxied", 0) for r in rs] or [0]), nprox), nprox == 0 or max([r.get("proxied", 0) for r in rs] or [0]) >= nprox // 2, "")
@@ -83,6 +97,9 @@ def check(run):
                                          str(bool(servers[i["srv"]]["trusted"])).lower(), str(bool(r.get("hit"))).lower(),
                                          5 if r.get("r") == "panic" else CLS.get(r.get("cls", "ok") if r.get("r") == "err" else "ok", 4),
                                          str(bool(r.get("global"))).lower())
+    # (calls whose server redirects are judged by the monitor above only: the model decides single connections)
+    keep = [k for k, i in enumerate(inputs) if "redirect" not in i]
+    inputs, rs = [inputs[k] for k in keep], [rs[k] for k in keep]
     ins = [dict(i, chainlen=servers[i["srv"]]["chainlen"], trusted=servers[i["srv"]]["trusted"]) for i in inputs]
     vlib.judge_stream(run, "calls", IMPORTS, "case", ins, rs, term, CLAUSES, (),
                       "sequences of simpleshell.Go calls in ONE process against %d TLS servers with generated keys (chains of 1-3 certificates; every fourth "
